@@ -11,7 +11,7 @@ from __future__ import annotations
 
 from simkit.refmodels.extract import cost_of
 
-ROUND_OPTS = ("min_rounds", "max_rounds", "default_rounds", "vary_rounds")
+ROUND_OPTS = ("min_rounds", "max_rounds", "default_rounds", "vary_rounds", "rounds")
 
 
 class SchemeFacts:
@@ -139,8 +139,12 @@ class PolicyModel:
         f = self.facts[scheme]
         if not f.has_rounds:
             return (None, None)
+        # '<scheme>__rounds' sets default, minimum and maximum at once; each stays overridable by its own option (given at any level)
+        both = self.option(scheme, cat, "rounds")
         lo = self.option(scheme, cat, "min_rounds")
         hi = self.option(scheme, cat, "max_rounds")
+        lo = both if lo is None else lo
+        hi = both if hi is None else hi
         lo = f.clamp(int(_num(lo))) if lo is not None else None
         hi = f.clamp(int(_num(hi))) if hi is not None else None
         return (lo, hi)
@@ -154,6 +158,8 @@ class PolicyModel:
         if not f.has_rounds:
             return None
         d = self.option(scheme, cat, "default_rounds")
+        if d is None:
+            d = self.option(scheme, cat, "rounds")
         d = f.clamp(int(_num(d))) if d is not None else f.default
         if d is None:
             return None
